@@ -89,6 +89,14 @@ var addrCorruptions = []string{"0x", "0x00000000000000000", "0xg", "", "0x123456
 // RobustInputs enumerates the seeds and every edited / corrupted variant.
 func RobustInputs(thorough bool, try func(kind string, seed int, input []byte, changed bool)) int {
 	seeds := RobustSeeds()
+	SeedEdits(seeds, thorough, "", try)
+	robustExtras(try)
+	return len(seeds)
+}
+
+// SeedEdits enumerates the edit families over the given seeds; kinds are prefixed.
+func SeedEdits(seeds [][]byte, thorough bool, prefix string, try0 func(kind string, seed int, input []byte, changed bool)) {
+	try := func(kind string, seed int, input []byte, changed bool) { try0(prefix+kind, seed, input, changed) }
 	for si, seed := range seeds {
 		lines := splitLines(seed)
 		n := len(lines)
@@ -193,6 +201,9 @@ func RobustInputs(thorough bool, try func(kind string, seed int, input []byte, c
 			off += len(l)
 		}
 	}
+}
+
+func robustExtras(try func(kind string, seed int, input []byte, changed bool)) {
 	// all single byte substitutions of three short seeds
 	short := [][]byte{
 		[]byte("goroutine 1 [running]:\nmain.f(0x1, {0x2})\n\t/a/b.go:10 +0x1\ncreated by main.g\n\t/a/c.go:2 +0x3\n\ngoroutine 2 [select]:\n\tgoroutine running on other thread; stack unavailable\n"),
@@ -219,5 +230,4 @@ func RobustInputs(thorough bool, try func(kind string, seed int, input []byte, c
 			try("shape-pair", 1000+i*len(ArgShapes)+j, in, true)
 		}
 	}
-	return len(seeds)
 }
